@@ -71,6 +71,17 @@ CHECKS = {
                 "the rekey condition on the REKEY bit and on the wrapped counter, the same Poly1305 transcript, and init_push/init_pull "
                 "agree (R9.2); short input refused, *mlen_p = 0 on failure (R9.3). Whole-history delivery/ordering is not decided.",
     },
+    "C10": {
+        "engine": "ISA-feature / dispatch consistency (E4) + PathAI (E1) + call graph (E2)",
+        "technique": "effect analysis of compiler target-features against the runtime-feature guards of every backend selection site",
+        "text": "Static, for every CPU-feature subset: each backend function or vtable is selected (stored into a dispatch slot or called "
+                "through a conditionally chosen symbol) only under sodium_runtime_has_* tests whose compiler-reported feature closure "
+                "covers everything the selected code transitively requires; direct calls into higher-ISA code are guarded; every vtable "
+                "slot that is called is non-NULL wherever it can be read; public ISA-specific functions exist only in the AES-NI AES-GCM "
+                "unit, whose is_available is exactly the conjunction of the flags its code needs; has_avx/avx2/avx512f are set only under "
+                "the CPUID bit test, the XGETBV OS-state test and the next-lower flag. These are necessary conditions; byte-identity of "
+                "results across backends/configurations is NOT decided.",
+    },
     "C14": {
         "engine": "scalar-evolution byte coverage (E9) + PathAI (E1, conditional constant propagation)",
         "technique": "loop add-recurrence / trip-count coverage; constant-bound unrolling with data-dependence slice",
